@@ -96,6 +96,29 @@ pub fn run(api: &str, case: &J) -> J {
             json!({"ok": results})
         },
         "capi_functions" => json!({"ok": FUNCTIONS}),
+        // cache invisibility: q2 after q1 on one namespace ("warm") against q2 on a fresh one ("cold")
+        "ns_history" => {
+            use libhaystack::defs::namespace::{DefDict, Namespace};
+            let mk = || -> &'static Namespace<'static> { match vj::from(&case["defs"]) { Value::Grid(g) => Box::leak(Box::new(Namespace::make(g))), _ => panic!("defs grid") } };
+            let names = |v: Vec<&Dict>| -> J { let mut n: Vec<String> = v.iter().map(|d| vj::hex(d.def_name().as_bytes())).collect(); n.sort(); n.dedup(); json!(n) };
+            let ask = |ns: &'static Namespace<'static>, q: &J| -> J {
+                let sym = Symbol::from(vj::uhs(&q["sym"]).as_str());
+                let base = Symbol::from(vj::uhs(&q["base"]).as_str());
+                match q["op"].as_str().unwrap() {
+                    "supertypes" => names(ns.supertypes_of(&sym).clone()),
+                    "all_supertypes" => names(ns.all_supertypes_of(&sym)),
+                    "inheritance" => names(ns.inheritance(&sym).clone()),
+                    "fits" => json!(ns.fits(&sym, &base)),
+                    "reflect" => { let rec = vj::dict_from(&q["rec"]); let r = ns.reflect(&rec); json!({"defs": names(r.defs.clone()), "fits": r.fits(&base), "entity": vj::dict_to(&r.entity_type)}) }
+                    other => json!({"bad_op": other}),
+                }
+            };
+            let a = mk();
+            let _ = ask(a, &case["q1"]);
+            let warm = ask(a, &case["q2"]);
+            let cold = ask(mk(), &case["q2"]);
+            json!({"ok": {"warm": warm, "cold": cold}})
+        }
         // namespace queries: {"defs": vj grid, "sym": hex, "base": hex, "rec": vj dict | null}
         "ns_query" => {
             use libhaystack::defs::namespace::{DefDict, Namespace};
